@@ -183,17 +183,18 @@ Fixpoint bfs (fuel : nat) (queue : list (addr3 * tree)) (pend : list change)
       end
   end.
 
-(* restart on a table change: everything is asked again from the root, the boards keep what was set so far *)
-Fixpoint enum (passes fuel : nat) (t : tree) (pend : list change) : option (list ev * tree) :=
+(* restart on a table change: everything is asked again from the root. The result is the list of passes (all but the last
+   one aborted); every pass starts with all boards disconnected (repair 8c05783) *)
+Fixpoint enum (passes fuel : nat) (t : tree) (pend : list change) : option (list (list ev) * tree) :=
   match passes with
   | O => None
   | S p =>
       match bfs fuel [(root_addr, t)] pend with
       | None => None
-      | Some (evs, None) => Some (evs, t)
+      | Some (evs, None) => Some ([evs], t)
       | Some (evs, Some (t', pend')) =>
           match enum p fuel t' pend' with
-          | Some (e2, tf) => Some (evs ++ e2, tf)
+          | Some (e2, tf) => Some (evs :: e2, tf)
           | None => None
           end
       end
@@ -202,6 +203,11 @@ Fixpoint enum (passes fuel : nat) (t : tree) (pend : list change) : option (list
 Definition apply_ev (bs : list bst) (e : ev) : list bst :=
   match e with ERow a u => connect bs u a | EQuery _ _ => bs end.
 Definition apply_evs (bs : list bst) (evs : list ev) : list bst := fold_left apply_ev evs bs.
+(* board_i.connected = false for every board at the start of a pass; the stored address is left as it is *)
+Definition disconnect_all (bs : list bst) : list bst :=
+  map (fun s => {| s_uid := s_uid s; s_conn := false; s_addr := s_addr s |}) bs.
+Definition apply_passes (bs : list bst) (passes : list (list ev)) : list bst :=
+  fold_left (fun b p => apply_evs (disconnect_all b) p) passes bs.
 
 Definition ev_msgs (e : ev) : list msg :=
   match e with
@@ -427,15 +433,16 @@ Definition after_enum (c : cfg) (bs : list bst) (ss : list tst) : list msg * lis
   ([(root_addr, MSG_GET_PKT_CAPACITY, [])] ++ feature_msgs bb ++ [(root_addr, MSG_SYS_ENABLE, [])] ++
    rm ++ track_state_all bs BIDIB_CS_STATE_GO ++ occupancy_msgs bb ++ init_accessory_msgs c bs ++ tm, ss2).
 
-(* bidib_send_sys_reset on the current board table (the connected flags are NOT cleared by bidib_state_reset) *)
+(* bidib_send_sys_reset on the current board table (bidib_state_reset leaves it alone; the enumeration clears the
+   connected flags at the start of every pass) *)
 Definition sys_reset (fuel : nat) (c : cfg) (bs : list bst) (t : tree) (pend : list change)
   : option (list msg * list bst * list tst * tree) :=
   match enum (S (length pend)) fuel t pend with
   | None => None
-  | Some (evs, tf) =>
-      let bs1 := apply_evs bs evs in
+  | Some (passes, tf) =>
+      let bs1 := apply_passes bs passes in
       let '(m, ss) := after_enum c bs1 (init_ts c) in
-      Some ((root_addr, MSG_SYS_RESET, []) :: flat_map ev_msgs evs ++ m, bs1, ss, tf)
+      Some ((root_addr, MSG_SYS_RESET, []) :: flat_map ev_msgs (concat passes) ++ m, bs1, ss, tf)
   end.
 
 Definition probe_msgs : list msg :=
